@@ -22,7 +22,8 @@ import progs
 import runner
 
 REASONS = ["altered file reports a different signal length as valid", "altered file reports a different first sample id as valid",
-           "altered samples returned as valid", "altered source definitions returned as valid", "altered signal definitions returned as valid",
+           "altered samples returned as valid", "altered statistics returned as valid", "altered source definitions returned as valid",
+           "altered signal definitions returned as valid",
            "the open wrote to the altered file without changing it", "altered or incomplete annotations returned as valid",
            "altered or incomplete UTC entries returned as valid", "altered or incomplete user data returned as valid",
            "a signal that was never defined appeared"]
@@ -83,6 +84,24 @@ def run(tier):
             ops.append({"op": "faultscan", "mode": "multi", "count": (6000 if thorough else 350), "seed": C.seed() * 1000 + phase + 100 * v})
             P.append({"x": x, "kind": "c04", "feat": ["variant-%d" % v, "phase-%d" % phase], "ops": ops})
             x += 1
+    # chunks larger than the reader's initial 1 MiB chunk buffer (the read is repeated after the buffer has grown):
+    # sampled faults inside the large payloads only
+    nbig = 60 if thorough else 16
+    big_ud = [{"op": "wopen"}, {"op": "source", "id": 1, "name": ["lit", "src"]},
+              {"op": "userdata", "meta": 5, "stype": 1, "data": ["rep", 1500000, 77]},
+              {"op": "signal", "id": 1, "src": 1, "dt": "u8", "rate": 1000, "spd": 64, "sdf": 16, "eps": 10, "sumdf": 10, "adf": 10, "udf": 10,
+               "name": ["lit", "s"], "units": ["lit", "u"]},
+              {"op": "fsr", "sig": 1, "id": 0, "n": 300}, {"op": "wclose"},
+              {"op": "faultscan", "mode": "multi", "count": nbig, "minsize": 1 << 20, "seed": C.seed() * 1000 + 901}]
+    P.append({"x": x, "kind": "c04", "feat": ["big-userdata"], "ops": big_ud})
+    x += 1
+    big_fsr = [{"op": "wopen"}, {"op": "source", "id": 1, "name": ["lit", "src"]},
+               {"op": "signal", "id": 1, "src": 1, "dt": "f32", "rate": 1000, "spd": 300000, "sdf": 1000, "eps": 300, "sumdf": 10, "adf": 10, "udf": 10,
+                "name": ["lit", "s"], "units": ["lit", "u"]},
+               {"op": "fsr", "sig": 1, "id": 0, "n": 200000}, {"op": "fsr", "sig": 1, "id": 200000, "n": 250000}, {"op": "wclose"},
+               {"op": "faultscan", "mode": "multi", "count": nbig, "minsize": 1 << 20, "seed": C.seed() * 1000 + 902}]
+    P.append({"x": x, "kind": "c04", "feat": ["big-fsr-block"], "ops": big_fsr})
+    x += 1
     trace, abnormal = runner.run_programs(P, seed=C.seed(), tag="c04", per_program_timeout=600)
     nobs = sum(1 for l in open(trace) if l.startswith('{"e":"FaultObs"'))
     ck.log("enumerated %d faults on %d file(s): each altered copy opened and dumped by the real reader; %d abnormal driver termination(s)" % (nobs, nfiles, len(abnormal)))
